@@ -11,63 +11,63 @@ CHECKS = {
    "Trusted: the fault operators and seeds; 'time proportional to input' is approximated by the stall watchdog, 'memory proportional' by the allocator thresholds; arbitrary multi-fault combinations are not covered.",
    "DESIGN.md §2 C06"),
  "C07": ("model_checking", "E2-bfs",
-   "exhaustive enumeration of all call sequences up to depth 3 (thorough 4) over the Reader/ReaderRef API on real readers, differential oracle against first-call results",
-   "For one feature-rich workbook per format (3 sheets incl. chart/hidden sheet, shared strings, 1-D and 2-D shared formulas, dates, merged regions, a table, a VBA project, a defined name, a gap row) every sequence of <=3 (thorough 4) calls over 13 Reader calls, 3 header-row settings and the format's own calls (range_ref, merge cells by name / index incl. unknown ones, merged regions, tables) is replayed on a fresh reader (32 k / 665 k sequences): every result must equal the result of the same call made first on a fresh reader under the header-row option then in force. In addition range == range_ref == range_at(n) == worksheets()[name] for every sheet, unknown names and near misses of every real name (letter case, blanks, one character more or less) are errors, two sheets whose names differ only by case are distinct on every path, and the auto-detected Sheets reader returns the same results as the format's own reader for every common call under every option and after every change of option.",
+   "exhaustive enumeration of all call sequences up to depth 3 (thorough 5) over the Reader/ReaderRef API on real readers, differential oracle against first-call results",
+   "For one feature-rich workbook per format (3 sheets incl. chart/hidden sheet, shared strings, 1-D and 2-D shared formulas, dates, merged regions, a table, a five-module VBA project, a defined name, a gap row) every sequence of <=3 (thorough 5) calls over 13 Reader calls, 3 header-row settings and the format's own calls (range_ref, merge cells by name / index incl. unknown ones, merged regions, tables) is replayed on a fresh reader (38 k / 14 M sequences): every result must equal the result of the same call made first on a fresh reader under the header-row option then in force. In addition range == range_ref == range_at(n) == worksheets()[name] for every sheet (also for every sheet of every fixture workbook under the repository's tests/ directory that opens), unknown names and near misses of every real name (letter case, blanks, one character more or less) are errors, two sheets whose names differ only by case are distinct on every path, and the auto-detected Sheets reader returns the same results as the format's own reader for every common call under every option and after every change of option.",
    "Trusted: the workbook builders; results compared through Debug renderings.",
    "DESIGN.md §2 C07"),
  "C20": ("model_checking", "E1-choice",
    "stateless choice-tree exploration of encrypted containers (OOXML-in-CFB, BIFF8 FILEPASS, ods manifests) and of unencrypted workbooks on the real readers",
-   "Encrypted OOXML packages (6 sizes around the mini-stream cutoff, 4 EncryptionInfo variants, DataSpaces storage or not) in CFB layouts (v3/v4, 5 sector orders, directory variations, stale bytes after name terminators) opened with Xlsx and Xlsb; BIFF workbooks with FILEPASS of 5 kinds (BIFF8 RC4, XOR, CryptoAPI v2/v4; the 4-byte BIFF5 XOR form in a Book stream) at both legal positions with garbled record bodies; ods manifests with encryption-data on the first, a middle, the last, all or several of 3-5 entries, with or without a leading manifest:keyinfo element: a 15.7 MB package (two DIFAT sectors, directory behind sector 30208) in three sector orders, chains owning spare sectors: every one must fail with the reader's Password error. Conversely unencrypted xlsx (every C01 encoding), xlsb, xls (CFB layouts, extra streams, WRITEPROTECT, PROTECT + PASSWORD verifier) and ods workbooks whose names and strings spell the trigger words must open. Full product for ods/plain (thorough: all families), <=3 deviations otherwise.",
+   "Encrypted OOXML packages (6 sizes around the mini-stream cutoff, 4 EncryptionInfo variants, DataSpaces storage or not) in CFB layouts (v3/v4, 5 sector orders, directory variations, stale bytes after name terminators) opened with Xlsx and Xlsb (reader positioned at the start, behind the magic bytes or at the end); BIFF workbooks with FILEPASS of 5 kinds (BIFF8 RC4, XOR, CryptoAPI v2/v4; the 4-byte BIFF5 XOR form in a Book stream) at both legal positions with garbled record bodies; ods manifests with encryption-data on the first, a middle, the last, all or several of 3-5 entries, with or without a leading manifest:keyinfo element: a 15.7 MB package (two DIFAT sectors, directory behind sector 30208) in three sector orders, chains owning spare sectors: every one must fail with the reader's Password error. Conversely unencrypted xlsx (every C01 encoding), xlsb, xls (CFB layouts, extra streams, WRITEPROTECT, PROTECT + PASSWORD verifier) and ods workbooks whose names and strings spell the trigger words must open. Full product for ods (thorough: all families), <=4 deviations otherwise.",
    "Trusted: the container writers; ciphertext is pseudo-random.",
    "DESIGN.md §2 C20"),
  "C18": ("model_checking", "E1-choice",
-   "complete enumeration of sources over {a,b} up to length 8/10 x every valid tokenisation, copy tokens at every chunk position, multi-chunk containers through the real decompressor; choice-tree exploration of project layouts in three container formats",
-   "(a) every source over {a,b} of length <= 8 (thorough 10) in every valid tokenisation (literal or any legal copy token at each position; 27 k / 50 k containers), copy tokens with boundary offsets and lengths at every decompressed position 1..4095 (all 12 offset-width regimes), sources of 0..20000 bytes of four redundancy profiles compressed greedy / literal-only / raw, and two-chunk containers whose first chunk has every token count modulo 8, all decompressed by the real code and compared with the source or an independent reference expansion; (b) projects with 0-3 modules (source length, text offset 0/5/1000, compression mode, stream name different from module name, class/read-only/private records, bytes that happen to be valid UTF-8, module names equal to project streams up to case), empty or filled DOCSTRING / HELPFILE / CONSTANTS records, 0-3 references of 5 kinds, optional compat-version record, code page 1252 (thorough 932), CFB layout, embedded in xlsm, xlsb and xls: module names, raw bytes, decoded text and reference names.",
+   "complete enumeration of sources over {a,b} up to length 8/12 x every valid tokenisation, copy tokens at every chunk position, multi-chunk containers through the real decompressor; choice-tree exploration of project layouts in three container formats",
+   "(a) every source over {a,b} of length <= 8 (thorough 12) in every valid tokenisation (literal or any legal copy token at each position; 27 k / 50 k containers), copy tokens with boundary offsets and lengths at every decompressed position 1..4095 (all 12 offset-width regimes), sources of 0..20000 bytes of four redundancy profiles compressed greedy / literal-only / raw, and two-chunk containers whose first chunk has every token count modulo 8, all decompressed by the real code and compared with the source or an independent reference expansion; (b) projects with 0-3 modules (source length, text offset 0 / 5 / 1000 / 65536 / 70000, compression mode, stream name different from module name, class/read-only/private records, bytes that happen to be valid UTF-8, module names equal to project streams up to case), empty or filled DOCSTRING / HELPFILE / CONSTANTS records, 0-3 references of 5 kinds, optional compat-version record, code page 1252 (thorough 932), CFB layout, embedded in xlsm, xlsb and xls: module names, raw bytes, decoded text and reference names.",
    "Trusted: gen/ovba.rs (compressor, dir stream from MS-OVBA 2.3.4.2, 2.4.1) and gen/cfb.rs; optional unicode records always present.",
    "DESIGN.md §2 C18"),
  "C15": ("model_checking", "E1-choice",
    "complete enumeration of master formulas (templates x reference alphabet) x offsets through the real translator vs a reference shift; choice-tree exploration of group shapes end to end",
-   "(a) 40 formula templates (function names ending in digits, apostrophes inside string literals and double quotes inside quoted sheet names, names that only look like references (XFE1, A1048577, A0, B01), defined names with non-ASCII letters ending like a cell reference, sheet-qualified / quoted / non-ASCII sheet names, strings with cell-like text and doubled quotes, exponent numbers, names with digits) with 24 references (all absolute/relative combinations at A1, Z10, AA5, ZZ100, C16384, B20000) in every slot are translated by every offset of a window through the real replace_cell_names and compared with the piecewise reference shift; (b) groups of 7 shapes (1-D and 2-D) at 3 master positions with every master formula, the master not being the top-left cell of the declared range, a second group (below, or with its master on the last row of the first), members repeating the master text, swapped si order, a non-member cell inside the range, prefix, implicit references, rows that never carry r and indented XML are read through worksheet_formula (<=2, thorough 3 deviations): every member must carry its translated formula, other cells theirs.",
+   "(a) 40 formula templates (function names ending in digits, apostrophes inside string literals and double quotes inside quoted sheet names, names that only look like references (XFE1, A1048577, A0, B01), defined names with non-ASCII letters ending like a cell reference, sheet-qualified / quoted / non-ASCII sheet names, strings with cell-like text and doubled quotes, exponent numbers, names with digits) with 24 references (all absolute/relative combinations at A1, Z10, AA5, ZZ100, C16384, B20000) in every slot, plus masters touching the last column / last row (XFD2, A1048576, XFD1048576) moved only where they stay inside the sheet, are translated by every offset of a window through the real replace_cell_names and compared with the piecewise reference shift; (b) groups of 7 shapes (1-D and 2-D) at 3 master positions with every master formula, the master not being the top-left cell of the declared range, a second group (below, or with its master on the last row of the first), members repeating the master text, swapped si order, a non-member cell inside the range, prefix, implicit references, rows that never carry r, master text split by CDATA and comments and indented XML are read through worksheet_formula (<=2, thorough 4 deviations): every member must carry its translated formula, other cells theirs.",
    "Trusted: the piece-list reference in props/c15.rs and gen/xlsx.rs. Offsets keep references inside the sheet.",
    "DESIGN.md §2 C15"),
  "C14": ("model_checking", "E1-choice",
    "complete enumeration of formula ASTs up to depth 2 (thorough: + depth 3 layer) serialised to BIFF8/BIFF12 token streams and rendered by the real parsers, vs the AST's own A1 renderer; sub-lattice end to end at cell positions",
-   "About 160 k (thorough 4 M) ASTs per binary format over cell refs (4 absolute/relative combinations x columns A..IV/XFD x first/last row), areas, 3-D refs and areas through a non-identity XTI table, defined names, int/float/8- and 16-bit string/bool/error literals, unary, 15 binary, parentheses, fixed- and variable-arity functions (incl. omitted arguments, CHOOSE, calls with 30 / 127 / 128 / 130 / 255 arguments), deleted references (PtgRefErr/AreaErr, 2-D and 3-D), 8 error literals incl. 0x2B, and PtgAttrSum are serialised in both operand classes and once more with the control tokens applications write (PtgAttrSemi, PtgAttrIf/Goto, PtgAttrChoose) and rendered by the real xls and xlsb token parsers; every 41st (thorough 7th) is also written into FORMULA / BrtFmla* records in windows at A1 and at the last cell and read through worksheet_formula (placement and emptiness of other cells checked), cycling a formula-less name record before the used names and (xls) sheet substreams stored in reverse of BoundSheet8 order, (xlsb) a chart sheet as second tab so that tab indices and worksheet indices differ; xlsx and ods stored-text formulas with XML-special characters at every subset of 6 positions (two of them directly after another, so that implicit and explicit references mix within a row), explicit and implicit cell references, rows that never carry r, formula text split by CDATA and comments, ods formula cells without cached value, indented documents.",
+   "About 160 k (thorough 4 M) ASTs per binary format over cell refs (4 absolute/relative combinations x columns A..IV/XFD x first/last row), areas, 3-D refs and areas through a non-identity XTI table, defined names, int/float/8- and 16-bit string/bool/error literals, unary, 15 binary, parentheses, fixed- and variable-arity functions (incl. omitted arguments, CHOOSE, calls with 30 / 127 / 128 / 130 / 255 arguments), deleted references (PtgRefErr/AreaErr, 2-D and 3-D), 8 error literals incl. 0x2B, and PtgAttrSum are serialised in both operand classes and once more with the control tokens applications write (PtgAttrSemi, PtgAttrIf/Goto, PtgAttrChoose) and rendered by the real xls and xlsb token parsers; every 41st (thorough 7th) is also written into FORMULA / BrtFmla* records in windows at A1 and at the last cell and read through worksheet_formula (placement and emptiness of other cells checked), cycling a formula-less name record before the used names and (xls) sheet substreams stored in reverse of BoundSheet8 order, (xlsb) a chart sheet as second tab so that tab indices and worksheet indices differ; xlsx and ods stored-text formulas with XML-special characters at every subset of 6 positions (two of them directly after another, so that implicit and explicit references mix within a row), explicit and implicit cell references, rows that never carry r, formula text split by CDATA and comments, ods formula cells without cached value, three attribute orders of the ods cell element (formula first / last / in the middle), rows inside grouping elements, indented documents.",
    "Trusted: model/formula.rs (AST renderer and Ptg serialiser written from MS-XLS 2.5.198 / MS-XLSB 2.5.97; relative flags: bit 14 column, bit 15 row). Strings without double quotes, sheet names that need no quoting.",
    "DESIGN.md §2 C14"),
  "C17": ("model_checking", "E1-choice",
    "stateless choice-tree exploration of merged-region sets and table geometries through every API path of the real xlsx / xls readers",
-   "Workbooks with 1-2 sheets, 0-3 merged regions per sheet drawn in every order from five regions (A1 to the last rows/columns of the format; xls also split over two MERGECELLS records), and for xlsx 0-2 tables at 5 placements relative to the used range x header 0/1 x totals 0/1 x totalsRowShown absent/1/0 x .rels attribute order x indentation x explicit default counts x either sheet x prefix, all choice vectors with <=4 (thorough 5) deviations; worksheet_merge_cells(_at), load_merged_regions + merged_regions(_by_sheet), load_tables, table_names(_in_sheet), table_by_name(_ref) are compared with the declared geometry and the model values.",
+   "Workbooks with 1-2 sheets, 0-3 merged regions per sheet drawn in every order from five regions (A1 to the last rows/columns of the format; xls also split over two MERGECELLS records), and for xlsx 0-2 tables at 5 placements relative to the used range x header 0/1 x totals 0/1 x totalsRowShown absent/1/0 x .rels attribute order x indentation x explicit default counts x table parts with autoFilter / calculated column / tableStyleInfo / x14:table alt text x either sheet x a second sheet that holds merged regions but no values x prefix, all choice vectors with <=5 (thorough 8) deviations; worksheet_merge_cells(_at), load_merged_regions + merged_regions(_by_sheet), load_tables, table_names(_in_sheet), table_by_name(_ref) are compared with the declared geometry and the model values.",
    "Trusted: gen/xlsx.rs, gen/biff8.rs; tables keep at least one data row.",
    "DESIGN.md §2 C17"),
  "C08": ("model_checking", "E2-bfs",
-   "exhaustive enumeration of option histories (depth <= 2 over 12 options, depth 3 over 4/12) x all row patterns x four formats on real readers vs the statement",
-   "For every subset of rows 0..4 being non-empty (32 patterns) plus a sheet occupying the last two rows of the grid, two column offsets and all four formats (xlsx and xlsb also with an out-of-date advisory dimension record, xlsx also with rows and cells without r attributes, xls also with blank-string formula results alone on the first and last used row), every history of <=2 header-row settings over FirstNonEmptyRow and Row(n), n in {0..6, 65535, 65536, 1048576, u32::MAX}, and every history of 3 over a 4-option subset (thorough: all 12), is run on one reader with a read after every step; each read must not panic, start at row n iff data exists at or below n (else be empty), agree cell-by-cell with the default read at every position >= n and contain nothing else.",
+   "exhaustive enumeration of option histories (depth <= 3 over 12 options, depth 4 over 4/12) x all row patterns x four formats on real readers vs the statement",
+   "For every subset of rows 0..4 being non-empty (32 patterns) plus a sheet occupying the last two rows of the grid, two column offsets and all four formats (xlsx and xlsb also with an out-of-date advisory dimension record, xlsx also with rows and cells without r attributes, ods also with rows inside table:table-header-rows / table:table-rows, xls also with blank-string formula results alone on the first and last used row), every history of <=3 header-row settings over FirstNonEmptyRow and Row(n), n in {0..6, 65535, 65536, 1048576, u32::MAX}, and every history of 4 over a 4-option subset (thorough: all 12), is run on one reader with a read after every step; each read must not panic, start at row n iff data exists at or below n (else be empty), agree cell-by-cell with the default read at every position >= n and contain nothing else.",
    "Trusted: the four writers and the statement-level oracle in props/c08.rs; columns of the returned range are not constrained.",
    "DESIGN.md §2 C08"),
  "C16": ("model_checking", "E1-choice",
    "stateless choice-tree exploration of workbook metadata (sheet lists, names, visibility, kinds, defined names, date system) in four formats on the real readers",
-   "Workbooks with 0-3 sheets over 9 names (XML specials, quotes, non-ASCII, a C1 control character, astral, 31 characters), every visibility and every sheet kind the format can express, 0-2 reference-valued defined names, both date systems with a date cell on every worksheet, xlsx prefix / xls name packing / ods table:name attribute last / ods style-name collisions across families / ods table:dde-links with an unnamed table / xlsx defined-name text split by a comment / .rels attribute order / indented documents / xls substreams in reverse of BoundSheet8 order / a formula-less name record first (xls, xlsb): all choice vectors with <=3 (thorough 4) deviations plus the full product over one-sheet workbooks; sheet_names, sheets_metadata, defined_names and the date cells (xls: NUMBER or RK integer /100) are compared exactly and in order, and must be the same through content auto-detection.",
+   "Workbooks with 0-3 sheets over 9 names (XML specials, quotes, non-ASCII, a C1 control character, astral, 31 characters), every visibility and every sheet kind the format can express, 0-2 reference-valued defined names (pointing at B2 or at the last cell of the sheet), xlsb relationship ids with non-ASCII letters, both date systems with a date cell on every worksheet, xlsx prefix / xls name packing / ods table:name attribute last / ods style-name collisions across families / ods table:dde-links with an unnamed table / xlsx defined-name text split by a comment / .rels attribute order / indented documents / xls substreams in reverse of BoundSheet8 order / a formula-less name record first (xls, xlsb): all choice vectors with <=3 (thorough 5) deviations plus the full product over one-sheet workbooks; sheet_names, sheets_metadata, defined_names and the date cells (xls: NUMBER or RK integer /100) are compared exactly and in order, and must be the same through content auto-detection.",
    "Trusted: the four writers; defined names are reference-valued only.",
    "DESIGN.md §2 C16"),
  "C10": ("model_checking", "E1-choice",
-   "complete enumeration of all number-format token sequences up to length 3/4 through the real classifier vs a token-level reference + full product of style tables x number encodings x date systems in three formats",
-   "(a) all 143 k (thorough 7.5 M) sequences over a 52-token alphabet of the number-format grammar are classified by the real detect_custom_number_format and compared with a token-level reference (first section only; literals, escapes and bracket prefixes do not count); every built-in id 0-22, 37-49 through both lookup functions. (b) the full product (about 16 k files) of 14 style kinds, 5 serials, both date systems, XF position, out-of-range style index, General xf entries without numFmtId and applyNumberFormat 1/absent/0 (xlsx), the fPhShow bit (xlsb), FORMAT strings stored 8- or 16-bit (xls) and every number encoding of xlsx / xls / xlsb is read end to end: variant, flavour, serial and is_1904 must match.",
+   "complete enumeration of all number-format token sequences up to length 3/5 through the real classifier vs a token-level reference + full product of style tables x number encodings x date systems in three formats",
+   "(a) all 179 k (thorough 560 M) sequences over a 56-token alphabet (incl. escaped escape characters) of the number-format grammar are classified by the real detect_custom_number_format and compared with a token-level reference (first section only; literals, escapes and bracket prefixes do not count); every built-in id 0-22, 37-49 through both lookup functions. (b) the full product (about 16 k files) of 14 style kinds, 5 serials, both date systems, XF position, out-of-range style index, General xf entries without numFmtId and applyNumberFormat 1/absent/0 (xlsx), the fPhShow bit (xlsb), FORMAT strings stored 8- or 16-bit (xls) and every number encoding of xlsx / xls / xlsb is read end to end: variant, flavour, serial and is_1904 must match.",
    "Trusted: the token classes of props/c10.rs; token sequences mixing General/@ with date tokens, digit placeholders or separators, and elapsed tokens after a date token, are outside the grammar and skipped; locale-dependent built-in ids not asserted.",
    "DESIGN.md §2 C10"),
  "C19": ("model_checking", "E1-choice",
    "stateless choice-tree exploration of atom strings x every storage form of all four formats on the real readers",
-   "All 3616 strings of <=3 atoms over 15 atoms (XML specials, spaces, tab, LF, ]]>, Latin-1, C1 control U+0091, BMP, astral) plus the empty and a 32767-character string are written in every storage form: xlsx shared/inline/formula string x entity/decimal/hex references/CDATA/mixed (CDATA + comment + text) x plain/1-3 rich runs/phonetic runs x empty <si/> before or between x prefix; xlsb Isst (plain/rich/phonetic)/St/FmlaString; xls SST (plain/rich/ExtRst, optionally after an empty rich item)/LABEL/STRING in both packings; ods content (text:s variants, literal spaces, spans, paragraphs, with or without a cell comment), attribute with or without text:p. Exact string equality, and the neighbouring string must be unaffected.",
+   "All 3616 strings of <=3 atoms over 15 atoms (XML specials, spaces, tab, LF, ]]>, Latin-1, C1 control U+0091, BMP, astral) plus the empty and a 32767-character string (and xls / xlsb tables of up to 66000 strings referenced past the 16-bit index boundary) are written in every storage form: xlsx shared/inline/formula string x entity/decimal/hex references/CDATA/mixed (CDATA + comment + text) x plain/1-3 rich runs/phonetic runs x empty <si/> before or between x prefix; xlsb Isst (plain/rich/phonetic)/St/FmlaString; xls SST (plain/rich/ExtRst, optionally after an empty rich item)/LABEL/STRING in both packings; ods content (text:s variants, literal spaces, spans, paragraphs, with or without a cell comment), attribute with or without text:p. Exact string equality, and the neighbouring string must be unaffected.",
    "Trusted: the four writers; an empty-string cell may read as Empty; ods tab only in the attribute form.",
    "DESIGN.md §2 C19"),
  "C02": ("model_checking", "E1-choice",
    "complete enumeration of all 2^32 RK words through the real decoder + stateless choice-tree exploration of BIFF8 sheets x equivalent record encodings",
-   "All 4 294 967 296 RK words are decoded by the real rk decoder and compared with the MS-XLS 2.5.217 definition (value, sign extension, /100, Int/Float typing); shared-string tables of 255..66000 strings with LABELSST indices at the 8- and 16-bit boundaries; formula results whose IEEE bytes carry 0xFF in one of the two top bytes; FORMULA records whose tokens the text renderer rejects; a Book stream next to Workbook; end to end, sheets with <=2 (thorough 3) cells of ~75 kinds at three anchors (incl. row 65535 / column 255) are written with every exact encoding of each number (NUMBER, RK int/float, x100 forms, MULRK grouping), LABELSST/LABEL/BOOLERR/FORMULA(+STRING, also with a SHRFMLA / ARRAY / TABLE record in between) and ignorable records, in v3 and v4 containers, and read back through worksheet_range.",
+   "All 4 294 967 296 RK words are decoded by the real rk decoder and compared with the MS-XLS 2.5.217 definition (value, sign extension, /100, Int/Float typing); shared-string tables of 255..66000 strings with LABELSST indices at the 8- and 16-bit boundaries; formula results whose IEEE bytes carry 0xFF in one of the two top bytes; FORMULA records whose tokens the text renderer rejects; a Book stream next to Workbook; the two sheet substreams stored in either order; end to end, sheets with <=2 (thorough 3) cells of ~75 kinds at three anchors (incl. row 65535 / column 255) are written with every exact encoding of each number (NUMBER, RK int/float, x100 forms, MULRK grouping), LABELSST/LABEL/BOOLERR/FORMULA(+STRING, also with a SHRFMLA / ARRAY / TABLE record in between) and ignorable records, in v3 and v4 containers, and read back through worksheet_range.",
    "Trusted: gen/biff8.rs + gen/cfb.rs writers (MS-XLS / MS-CFB) and the value model.",
    "DESIGN.md §2 C02"),
  "C03": ("model_checking", "E1-choice",
    "stateless choice-tree exploration of BIFF12 sheets x record kinds x ignorable-record interleavings on the real reader",
-   "Sheets with <=2 cells of ~70 kinds (every exact RK encoding, Real, Isst, St, Bool, Error, all four BrtFmla* kinds, zero-length constant and cached strings, /100 RK floats sensitive to the rounding of the division), bulk inside the skipped blocks before the sheet data (records crossing the reader's buffer refills), the fPhShow bit of the Cell structure set or not, at three anchors incl. the last row/column, with an ignorable record of 7 kinds and 6 payload lengths (1-, 2- and 3-byte length prefixes, 1- and 2-byte ids) at every gap, blank cells and optional pre-sheet-data blocks; shared-string tables of 65535..66000 strings with indices above 16 bits; all choice vectors with <=2 (thorough 3) deviations; worksheet_range and worksheet_range_ref compared with the model and with each other.",
+   "Sheets with <=2 cells of ~70 kinds (every exact RK encoding, Real, Isst, St, Bool, Error, all four BrtFmla* kinds, zero-length constant and cached strings, /100 RK floats sensitive to the rounding of the division), bulk inside the skipped blocks before the sheet data (records crossing the reader's buffer refills), the fPhShow bit of the Cell structure set or not, the reference count of the string table equal to / below / above its item count, relationship ids with non-ASCII letters, at three anchors incl. the last row/column, with an ignorable record of 7 kinds and 6 payload lengths (1-, 2- and 3-byte length prefixes, 1- and 2-byte ids) at every gap, blank cells and optional pre-sheet-data blocks; shared-string tables of 65535..66000 strings with indices above 16 bits; all choice vectors with <=2 (thorough 3) deviations; worksheet_range and worksheet_range_ref compared with the model and with each other.",
    "Trusted: gen/xlsb.rs (MS-XLSB) and the value model.",
    "DESIGN.md §2 C03"),
  "C12": ("model_checking", "E1-choice",
@@ -87,7 +87,7 @@ CHECKS = {
    "DESIGN.md §2 C01"),
  "C04": ("model_checking", "E1-choice",
    "stateless choice-tree exploration: every run-length composition of every small ods grid on the real reader vs a map model",
-   "Every grid up to 4x3/3x4 (thorough 5x4) with 1-3 (thorough 4) non-empty cells over two distinct values of 9 kinds is written in every composition of its runs of equal cells and rows (full product on small grids, <=2/3 deviations on the rest) with covered cells, horizontally merged cells (number-columns-spanned), strings by attribute only, leading runs of 1040 empty cells / 70000 empty rows, cell comments, an indented document and trailing-empty variants up to column 16384 / row 1048576, and read back through worksheet_range.",
+   "Every grid up to 3x3 / 4x2 / 2x4 with 1-3 and 4x3 / 3x4 with 1-2 non-empty cells (thorough: up to 3x3 with 1-4, 4x3 / 3x4 / 2x5 with 1-3, 5x4 with 1-2) over two distinct values of 9 kinds is written in every composition of its runs of equal cells and rows (<=2 deviations, thorough 3 on the smaller grids and over the run-length choices of the middle ones; full product of the run-length choices where small) with covered cells, horizontally merged cells (number-columns-spanned), strings by attribute only, leading runs of 1040 empty cells / 70000 empty rows, cell comments, rows inside header-rows / row-group / rows elements, an indented document and trailing-empty variants up to column 16384 / row 1048576, and read back through worksheet_range.",
    "Trusted: gen/ods.rs (ODF 1.2) and the map model. Empty-string cells and inter-element whitespace are not generated.",
    "DESIGN.md §2 C04"),
  "C05": ("model_checking", "E2-bfs",
@@ -97,12 +97,12 @@ CHECKS = {
    "DESIGN.md §2 C05"),
  "C09": ("model_checking", "E1-choice",
    "stateless choice-tree exploration (full product / deviation-bounded) of ranges x header configs x target shapes on the real RangeDeserializer vs a reference row mapper",
-   "Every small range (origin, 0-3 rows, 1-3 columns, 15 cell values incl. two error kinds, the strings true / False, the zero-length string, an integer beyond 2^53 and a fraction below one), every header mode (none / all, each also reached through another builder setting / every ordered custom selection incl. padded and unknown names / struct field names) and 12 target record shapes are enumerated; every item, every size_hint before each next() and every CellError kind and absolute position is compared with a reference mapper. Full product on small jobs, all choice vectors with <=2 (thorough 3) deviations from the default on the rest.",
+   "Every small range (origin, 0-3 rows, 1-3 columns, 15 cell values incl. two error kinds, the strings true / False, the zero-length string, an integer beyond 2^53 and a fraction below one), every header mode (none / all, each also reached through another builder setting / every ordered custom selection incl. names padded with blanks, tabs, newlines or no-break spaces and unknown names / struct field names) and 14 target record shapes (incl. enum fields) are enumerated; every item, every size_hint before each next() and every CellError kind and absolute position is compared with a reference mapper. Full product on small jobs, all choice vectors with <=2 (thorough 3) deviations from the default on the rest.",
    "Trusted: the reference conversions in props/c09.rs; serde's derive. Custom error messages are not compared.",
    "DESIGN.md §2 C09"),
  "C11": ("model_checking", "sweep",
    "complete enumeration of every whole-day serial x both date systems x 16 fractions on the real conversion code vs an integer calendar with exact i128 millisecond rounding",
-   "All 2 958 466 whole days of the supported span, in both date systems, at 16 fractions chosen at millisecond, half-millisecond and day boundaries (94.7 M conversions) are converted by the real code and compared with Hinnant's integer civil_from_days and exact rounding; monotonicity is checked over the whole sorted grid; as_date/as_time/as_duration and the Data::Int/Float paths on a fixed sub-lattice; NaN, infinities, huge and negative values must not panic and never yield a date.",
+   "All 2 958 466 whole days of the supported span, in both date systems, at 16 fractions chosen at millisecond, half-millisecond and day boundaries (94.7 M conversions) are converted by the real code and compared with Hinnant's integer civil_from_days and exact rounding; monotonicity is checked over the whole sorted grid; as_date/as_time/as_duration and the Data::Int/Float paths on a fixed sub-lattice; NaN, infinities, huge and negative values (floats and 64-bit integers) must not panic and never yield a date; Int cells convert like the Float of the same number.",
    "Trusted: model/dates.rs (60 lines of integer arithmetic). Fractions between the 16 grid points are not enumerated; within a tie window of max(2^-9 ms, 3 ulp) either millisecond is accepted.",
    "DESIGN.md §2 C11"),
 }
